@@ -81,4 +81,15 @@ def genShapeOf (nets_spawner : Option String) (swarm_in_scope : Bool) (cluster_i
        return 'global'
 -/
 
+/-- `TestNode.is_occupied` of avocado_i2n/cartgraph/node.py: the threshold computation.  `mct` / `maxTries` = the integer value of the parameters `max_concurrent_tries` / `max_tries` of this copy (none = not set), `started t` = `self.is_started(worker, t)` -/
+def genIsOccupied (mct : Option Int) (maxTries : Option Int) (started : Int → Bool) : Bool := Id.run do
+  let mut max_concurrent_tries : Int := (mct.getD (maxTries.getD (1 : Int)))
+  return (started (max max_concurrent_tries (1 : Int)))
+
+/- the Python it was generated from (comments and docstring dropped):
+   def is_occupied(self, worker: TestWorker=None) -> bool:
+       max_concurrent_tries = self.params.get_numeric('max_concurrent_tries', self.params.get_numeric('max_tries', 1))
+       return self.is_started(worker, max(max_concurrent_tries, 1))
+-/
+
 end I2N.Extracted.GenScope
